@@ -386,10 +386,11 @@ def check_string(ctx, ses, s, fam, thread=False, pad=0, shadow=True):
     if o1[0] == 'PE' and ses.auto and len(p.predicates) > len(snap):
         # informational (not a clause of the property as monitored): a rejected input still declared predicates
         out.count('rejected_parse_grew_store')
-        if not ctx.noted_growth and len(s) <= 12:
+        if not ctx.noted_growth:
             ctx.noted_growth = True
-            out.note(f'informational: a rejected input can leave auto-declared predicates in the store, e.g. {ses.notation} '
-                     f'{s!r}: {len(snap)} -> {len(p.predicates)} predicates (the shadow parser is built from the store as it was before the call)')
+            out.note("informational: a rejected input can leave auto-declared predicates in the store (e.g. polish 'KFm' on an "
+                     "empty store is rejected but declares F/1); counted in rejected_parse_grew_store. Not treated as a violation: "
+                     "the shadow parser is built from the store as it was before the call.")
     o2 = None
     if shadow:
         o2, ops2 = run_parse(make_parser(ses.notation, snap, ses.auto), s, pad, thread)
